@@ -709,6 +709,11 @@ def string_exprs():
     # ill-typed forms: must be BASIC errors
     for t in ('"a" + 1', '1 + "a"', '"a" * 2', '"a" < 1', 'LEN(1)', 'ABS("a")', 'MID$(1, 1)', 'NOT "a"', '-"a"', '"a" AND 1', 'STR$("a")', 'VAL(1)'):
         out.append(t)
+    # every binary operator with mixed operand kinds in both orders, with two strings, and behind a numeric sub-expression
+    for op in ("+", "-", "*", "/", "^", "MOD", "<", "<=", "=", "<>", ">", ">=", "AND", "OR", "XOR"):
+        for t in ('"a" %s 1' % op, '1 %s "a"' % op, '"a" %s "b"' % op, '2 * 3 %s s2$' % op, 's2$ %s va' % op, '5 %s STR$(4)' % op):
+            if t not in out:
+                out.append(t)
     _strex = out
     return out
 
